@@ -24,12 +24,15 @@ TRUSTED = ['CPython 3.12', 'persistent 6.8', 'vt harness']
 ASSUMPTIONS = ['key universes of 3 keys (all weight pairs) and 4 keys (two weight pairs); value and '
                'weight alphabets (values include 0, weights include 0, 1, a fraction / a negative, a big one) chosen so that float products and sums are exact in single precision']
 
-FORMS = ['Set', 'TreeSet', 'TreeSet/thin', 'Bucket', 'BTree', 'BTree/thin', 'None']
+# '/sub': an instance of an application subclass of the container class
+FORMS = ['Set', 'TreeSet', 'TreeSet/thin', 'Bucket', 'BTree', 'BTree/thin', 'Set/sub', 'Bucket/sub',
+         'TreeSet/sub', 'None']
 
 
 def bounds(tier):
     return ('quick: 16 numeric-valued families x 2 implementations; N=3 x all weight pairs, N=4 x 3 '
-            'weight pairs; thorough: N=4 x all weight pairs, N=5 x 3 weight pairs')
+            'weight pairs; operand forms Set, TreeSet, Bucket, BTree (thinned multi-leaf trees too) and instances of '
+            'application subclasses of Set / Bucket / TreeSet; thorough: N=4 x all weight pairs, N=5 x 3 weight pairs')
 
 
 def required_guards(tier):
@@ -86,6 +89,9 @@ def make(fam, impl, form, subset, keys, vals):
         return None
     kind = form.split('/')[0]
     cls = F.cls(fam, kind, impl)
+    if form.endswith('/sub'):
+        from .c10 import subclass_of
+        cls = subclass_of(cls)
     c = cls()
     ismap = kind in F.MAP_KINDS
     order = list(keys) if form.endswith('thin') else list(subset)
@@ -110,6 +116,8 @@ def job(fam, impl, n, weights, variant='centred'):
     keys, grid = F.universe(fam, n, variant)
     vals, ws, rng = alphabets(fam)
     F.set_sizes(fam, 2, 2)
+    # the n=4 jobs leave the third subclass form to the n=3 jobs
+    forms = FORMS if n <= 3 else [f for f in FORMS if f != 'TreeSet/sub']
     wpairs = list(itertools.product(ws, repeat=2))
     if weights == 'few':
         wpairs = [(ws[1], ws[1]), (ws[2], ws[-1]), (ws[-1], ws[3])]
@@ -144,8 +152,8 @@ def job(fam, impl, n, weights, variant='centred'):
     for A, B in itertools.product(subsets, repeat=2):
         if rep.full:
             break
-        for fa in FORMS:
-            for fb in FORMS:
+        for fa in forms:
+            for fb in forms:
                 m1, ismap1 = value_map(fa, A)
                 m2, ismap2 = value_map(fb, B)
                 for wspec in wpairs + ['default', 'w1-only']:
